@@ -13,7 +13,9 @@ Ltac unfold_kernels := cbv beta delta [
   gen_cl_loop_cond gen_cl_take_stop gen_cl_rest_start gen_cl_reset gen_cl_after
   gen_sum_and_n gen_br_cond gen_br_then_stop gen_br_else_stop gen_br_add gen_hr_total
   gen_mean_reduction gen_ac_equal_cond gen_ac_swap_cond gen_ac_prefix_stop gen_ac_tail_start gen_ac_add gen_gb_empty_test
-  gen_add_hist_count gen_sum_reduction
+  gen_add_hist_count gen_hist_reduction gen_sumred_none gen_sumred_axis0 gen_sumred_rows gen_sumred_axis0_cond
+  gen_at_scalar_cond gen_at_add gen_at_else gen_cr_first gen_cr_second gen_bs_empty_cond gen_bs_empty_val
+  gen_af_sum_axis gen_af_sum_func gen_af_sum_red
   gen_sn_assert gen_sn_advance gen_sn_next gen_cn_assert gen_cn_cached gen_cn_next
   gen_gc_changed_encoded gen_gc_changed_string gen_gc_changed_plain gen_gc_index
   gen_gb_fast_test gen_gb_fast_start gen_gb_insert_pos gen_gb_insert_val gen_gb_last_bound
@@ -83,8 +85,28 @@ Lemma b_add_columns : forall (p q : Z * Z) (x y : list (Z * Z)) la lb,
 Proof. intros. repeat split; reflexivity. Qed.
 Lemma b_add_hist_count : forall x y, red_hist (GL [x]) (GL [y]) = GL [gen_add_hist_count x y].
 Proof. bridge. Qed.
-Lemma b_sum_reduction : forall x y, gen_sum_reduction = "operator.add"%string /\ red_add (GZ x) (GZ y) = GZ (x + y).
-Proof. bridge. Qed.
+(* the reductions of np.sum (after fix-3).  Node.__array_function__ sends np.sum through `_buffer_sum` per buffer and reduces
+   with `_sum_reduction(axis)`, axis read from the keyword or the second positional argument; `_sum_reduction` returns
+   `_add_totals` for axis None (red_total), `_add_columns` for axis 0 / -2 (red_cols), `_concatenate_rows` otherwise
+   (red_rows); `_add_totals` adds two 0-d results and concatenates otherwise; `_concatenate_rows` keeps the order (a, b);
+   `_buffer_sum` is 0 for axis 0 / -2 and a buffer without rows; np.histogram stays in reductions_map. *)
+Lemma b_sum_reduction : forall (x y axis nrows : Z) (l1 l2 : list Z),
+  (gen_hist_reduction = "_add_histograms"%string
+   /\ gen_af_sum_func = "_buffer_sum"%string /\ gen_af_sum_red = "_sum_reduction(axis)"%string
+   /\ gen_af_sum_axis = "kwargs.get('axis', args[1] if len(args) > 1 else None)"%string)
+  /\ (gen_sumred_none = "_add_totals"%string /\ gen_sumred_axis0 = "_add_columns"%string
+      /\ gen_sumred_rows = "_concatenate_rows"%string /\ gen_sumred_axis0_cond axis = (axis =? 0) || (axis =? -2))
+  /\ (gen_at_scalar_cond 0 0 = true /\ red_total (GZ x) (GZ y) = GZ (gen_at_add x y)
+      /\ gen_at_scalar_cond 1 1 = false /\ gen_at_scalar_cond 0 1 = false /\ gen_at_scalar_cond 1 0 = false
+      /\ gen_at_else = "_concatenate_rows(a, b)"%string
+      /\ red_total (GL l1) (GL l2) = red_rows (GL l1) (GL l2))
+  /\ (gen_cr_first = "a"%string /\ gen_cr_second = "b"%string /\ red_rows (GL l1) (GL l2) = GL (l1 ++ l2))
+  /\ (gen_bs_empty_cond axis nrows = ((axis =? 0) || (axis =? -2)) && (nrows =? 0)
+      /\ op_colsums_fixed [GR []] = GZ gen_bs_empty_val
+      /\ red_cols (GZ gen_bs_empty_val) (GL l1) = GL l1 /\ red_cols (GL l1) (GZ gen_bs_empty_val) = GL l1
+      /\ red_cols (GL (x :: l1)) (GL (y :: l2)) = GL (gen_ac_add x y :: z_padadd l1 l2)
+      /\ red_cols (GL (x :: l1)) (GL []) = GL (x :: l1) /\ red_cols (GL []) (GL (y :: l2)) = GL (y :: l2)).
+Proof. intros. unfold_kernels. repeat split; reflexivity. Qed.
 
 (* graph nodes: the model keeps idx = _buffer_index + 1.  assertion passes and the node advances  <->  pull;
    assertion passes and the cached buffer is returned  <->  cached; otherwise the assertion fails (RAssert). *)
